@@ -687,6 +687,10 @@ def distribution(cases, results):
                 d["naive:mean:window-not-multiple-of-sp"] += 1
             if any(r_ <= 0 for r_ in c["fh"]):
                 d["naive:has-in-sample-step"] += 1
+            if wl_ != "reject" and any(r_ <= 0 and len(c["y"]) - 1 + r_ - wl_ < 0 for r_ in c["fh"]):
+                d["naive:in-sample-window-cut-by-series-start"] += 1
+            if wl_ == "reject":
+                d["naive:documented-rejection:%s" % _reject_reason(c).split(" (")[0].split(" of ")[0]] += 1
             if any(r_ > c["sp"] for r_ in c["fh"]):
                 d["naive:step-beyond-one-season"] += 1
             if any(v is None for v in c["y"]):
